@@ -68,6 +68,7 @@ type Ctx struct {
 	Ops     map[string]bool
 	Corpus  string
 	Repo    string
+	Partial string // when set: every recorded failure is also appended here at once (survives a fatal crash of the harness)
 }
 
 func newCtx(prop, tier string, seed int64, driver string) *Ctx {
@@ -122,6 +123,14 @@ func (c *Ctx) Fail(f Failure) {
 		return
 	}
 	c.Res.Failures = append(c.Res.Failures, f)
+	if c.Partial != "" {
+		if fh, err := os.OpenFile(c.Partial, os.O_APPEND|os.O_CREATE|os.O_WRONLY, 0o644); err == nil {
+			if b, err := json.Marshal(f); err == nil {
+				fh.Write(append(b, '\n'))
+			}
+			fh.Close()
+		}
+	}
 }
 
 // Corr queues one correspondence op: `op` is sent to the Lean driver, its answer compared with impl.
